@@ -7,10 +7,10 @@ import (
 func init() {
 	Register(&Property{
 		ID: "C15",
-		Decides: "(R15.1) ImportBlocks reports success only after BatchWork succeeded and the importers of the last batch were saved (no bypass around the final saveImporters) for the whole range to-from+1; " +
+		Decides: "(R15.1) BatchWork drops no batch's error; ImportBlocks reports success only after BatchWork succeeded and the importers of the last batch were saved (no bypass around the final saveImporters) for the whole range to-from+1; " +
 			"(R15.2) a batch's importer list is replaced only after the previous batch's importers were saved; every imported block's importer is stored in the batch list, and only after importBlock succeeded for the map fetched for that height; " +
-			"(R15.3) saveImporters succeeds only after every importer's Save succeeded, every deferred merge function ran, and the database merge callback succeeded.",
-		NotDecided: "that BatchWork visits every index exactly once (C33); slot arithmetic of the batch list over runtime heights; the importers' own Save (C16/C21).",
+			"(R15.3) saveImporters succeeds only after every importer's Save succeeded, every deferred merge function ran, and the database merge callback succeeded; (R15.4) an importer's Save succeeds only if isfinished answered true, and isfinished answers true only if every item of the block map is recorded finished.",
+		NotDecided: "that BatchWork visits every index exactly once (C33); slot arithmetic of the batch list over runtime heights; the rest of the importers' own Save (C16/C21).",
 		Run:        runC15,
 	})
 }
@@ -20,6 +20,7 @@ func runC15(c *Ctx) {
 	if parent == nil {
 		return
 	}
+	batchWorkErrRules(c, "R15.1")
 	c.Rule("R15.1", "MustPass")
 	succ := c.SuccessReturns(parent)
 	c.MP(parent, "success: BatchWork succeeded", succ, 1, GOkTo("util.BatchWork"))
@@ -75,4 +76,10 @@ func runC15(c *Ctx) {
 		}
 	}
 	_ = ssa.Instruction(nil)
+	// R15.4: an importer is saved (and so counted as stored) only when every item of its block map was written
+	c.Rule("R15.4", "MustPass")
+	if fn := c.Need("isaac/block.(*BlockImporter).Save"); fn != nil {
+		c.MP(fn, "saved only when every item of the map is finished", c.SuccessReturns(fn), 1, GTrue("im.isfinished()"))
+	}
+	isfinishedRules(c)
 }
